@@ -20,6 +20,7 @@ RULE = ('gate rules: n in 1..5, gate size 1..3, random target tuples in any orde
         'random operator sequences, L in {1,2,4}; Sylvester rule: sizes 1..4, repeat 1..3, incl. one zero root; flat bridge: random '
         'parameter names/shapes. Non-trivial = at least 2 qubits / 2 gates; distinct = distinct op lines.')
 TRUSTED = ['Lean 4.33 kernel', 'axioms: propext, Classical.choice, Quot.sound', 'Lean compiler for the driver executable',
+           'carriers: GInt/QI are proved to be CommRing/StarRing resp. Field instances (NumqiProofs/BackwardCarrier.lean); the theorems are instantiated at them by elaboration, not re-proved per carrier',
            'harness/c04.py canonicalisation and the construction of integer gate tensors / ind_gate_to_info copies with integer arrays',
            'Driver/C04.lean evaluates the sweep step by step through flat arrays (same step functions `PGate.apply`/`PGate.back` as the theorem)',
            'modelled, not verified: sim/state.py, sim/_torch_utils.py, qec/_internal.py, _torch_op.py, optimize/_internal.py; torch autograd and the gate '
@@ -230,14 +231,21 @@ def sweep_ops(ctx, rng, add):
         # (1) the index maps of _setup
         add(f'C04 slots {circuit_descs(circ)}',
             lambda: '|'.join((lambda v: f'{v[0]}:{v[1]}' if v else '-')(wrapper.ind_gate_to_ind_torch.get(i)) for i in range(len(circ.gate_index_list))))
-        # (2) the sweep itself on integer tensors, with the real ind_gate_to_info
+        # (2) the sweep itself on integer tensors, with the real ind_gate_to_info.  The op line carries only what `_setup` sees
+        #     (name, object identity, requires_grad, placeholder) and the stacked tensors; which row a gate reads is derived by the
+        #     model (`slotOf`/`repSlot`/`nameList`/`rowCount`), not by this harness.
+        from numqi.sim._internal import _ParameterHolder
         info = {k: (dict(v) if isinstance(v, dict) else list(v)) for k, v in wrapper.ind_gate_to_info.items()}
         names = info[-1]
         unitary = bool(rep % 2)
         rows, dims = {}, {}
         prog = []
-        for i in range(len(circ.gate_index_list)):
+        ids = {}
+        for i, (g, _) in enumerate(circ.gate_index_list):
             e = info[i]
+            oid = ids.setdefault(id(g), len(ids))
+            ph = int(hasattr(g, 'args') and isinstance(g.args, _ParameterHolder))
+            desc = f'{g.name}:{oid}:{int(bool(g.requires_grad))}:{ph}'
             if e['kind'] == 'unitary':
                 t = list(e['index']); k = len(t); head = f'u:{il(t)}'
             else:
@@ -245,20 +253,23 @@ def sweep_ops(ctx, rng, add):
             if 'ind_torch' in e:
                 nm = e['name']
                 rows[nm] = max(rows.get(nm, 0), e['ind_torch'] + 1); dims[nm] = k
-                prog.append(f'{head}:P:{names.index(nm) * 64 + e["ind_torch"]}')
+                prog.append(f'{head}:{desc}:-')
             else:
                 arr = rand_mat(rng, 2 ** k, unitary)
                 e['array'] = arr
-                prog.append(f'{head}:F:{gl(arr)}')
+                prog.append(f'{head}:{desc}:{gl(arr)}')
         tens = [np.stack([rand_mat(rng, 2 ** dims[nm], unitary) for _ in range(rows[nm])]) for nm in names]
-        params = [f'{dims[nm]}:{names.index(nm) * 64 + r}:{gl(tens[j][r])}' for j, nm in enumerate(names) for r in range(rows[nm])]
+        params = [f'{nm}:{dims[nm]}:{rows[nm]}:{gl(tens[j])}' for j, nm in enumerate(names)]
         psi = rg(rng, 2 ** n, 2); gout = rg(rng, 2 ** n, 2)
 
-        def f():
+        def f(tens=tens, psi=psi, gout=gout, info=info, names=names, rows=rows):
             tt = [torch.tensor(x, dtype=torch.complex128, requires_grad=True) for x in tens]
             q0 = torch.tensor(psi, dtype=torch.complex128, requires_grad=True)
             out = _CircuitFunction.apply(*tt, q0, info)
-            grads = torch.autograd.grad(out, tt + [q0], grad_outputs=torch.tensor(gout, dtype=torch.complex128))
+            gout_t = torch.tensor(gout, dtype=torch.complex128)
+            grads = torch.autograd.grad(out, tt + [q0], grad_outputs=gout_t)
+            check_unmutated(ctx, '_CircuitFunction.backward', dict(n=int(np.log2(len(psi))), gates=[str(x) for x in names]),
+                            [('grad_output', gout_t, torch.tensor(gout, dtype=torch.complex128))] + [(f'gate tensor {nm}', a, torch.tensor(b, dtype=torch.complex128)) for nm, a, b in zip(names, tt, tens)])
             gs = [gl(grads[j][r].numpy()) for j, nm in enumerate(names) for r in range(rows[nm])]
             return f'{gl(out.detach().numpy())}|{gl(grads[-1].numpy())}|{"/".join(gs)}'
         add(f'C04 sweep {n} {"|".join(prog)} {"|".join(params) or "-"} {gl(psi)} {gl(gout)}', f)
@@ -438,7 +449,8 @@ def handoff_ops(ctx, rng, add):
             if not np.array_equal(gflat, grad):
                 return 'get_model_flat_grad-differs-from-the-vector-handed-to-the-optimiser'
             cur = dict(mod.named_parameters())
-            vals = '|'.join(f'{nm}={il(cur[nm].detach().numpy().reshape(-1))}' for nm in names)
+            order = sorted(nm for nm, fz in zip(names, frozen) if not fz) + [nm for nm, fz in zip(names, frozen) if fz]
+            vals = '|'.join(f'{nm}={il(cur[nm].detach().numpy().reshape(-1))}' for nm in order)
             grads = '|'.join(f'{nm}={il(cur[nm].grad.numpy().reshape(-1))}' for nm, fz in zip(names, frozen) if not fz)
             return vals + ' ' + il(grad) + ' ' + il(back), grads
         r = guarded(f)
@@ -505,6 +517,36 @@ def logm_inner_tie(ctx, rng):
                            'value on the recorded binary64 inputs, tolerance 1e-10 relative (up to 3 passes of 3x3 products with a computed eigenbasis)')
 
 
+def sqrtm_forward_ops(ctx, rng, add):
+    """forward map of the PSD square root: torch.linalg.eigh intercepted to return integer eigen-data (some eigenvalues negative ->
+    clamped; the others perfect 2^r-th powers), so clamp, repeated sqrt, `(EVC*sqrt_EVL) @ EVC^H` and the saved roots are exact"""
+    import numqi, torch
+    TO = numqi._torch_op
+    for rep in range(6 if ctx.quick() else 40):
+        m = int(rng.integers(1, 5)); r = int(rng.integers(1, 4))
+        base = rng.integers(0, 4, size=m)
+        evl = np.array([int(b) ** (2 ** r) for b in base], dtype=np.int64)
+        neg = rng.integers(0, 3, size=m) == 0
+        evl = np.where(neg, -rng.integers(1, 5, size=m), evl)
+        V = rg(rng, (m, m), 2)
+
+        def f(evl=evl, V=V, m=m, r=r):
+            orig = torch.linalg.eigh
+            torch.linalg.eigh = lambda A, *a, **k: (torch.tensor(evl, dtype=torch.float64).reshape(1, m), torch.tensor(V).reshape(1, m, m))
+            try:
+                ret, (sq, evc) = TO._torch_psd_sqrtm_forward_repeat(torch.eye(m, dtype=torch.complex128), repeat=r)
+            finally:
+                torch.linalg.eigh = orig
+            if not np.array_equal(evc.numpy().reshape(m, m), V):
+                return 'saved-EVC-differs'
+            frac = lambda a: ';'.join(f'{int(round(complex(x).real))}/1,{int(round(complex(x).imag))}/1' for x in np.asarray(a).reshape(-1))
+            if np.any(np.asarray(sq.numpy()) != np.round(sq.numpy())) or np.any(ret.numpy() != np.round(ret.numpy().real) + 1j * np.round(ret.numpy().imag)):
+                return 'nonintegral'
+            return frac(sq.numpy()) + '|' + frac(ret.numpy())
+        add(f'C04 sqrtmfwd {m} {r} {il(evl)} {gl(V)}', f)
+        ctx.count('sqrtm-forward')
+
+
 def correspondence(ctx):
     rng = np.random.default_rng(ctx.np_seed)
     ops, impl, posts, findings = [], [], [], []
@@ -516,6 +558,7 @@ def correspondence(ctx):
     kl_ops(ctx, rng, add)
     flat_ops(ctx, rng, add)
     handoff_ops(ctx, rng, add)
+    sqrtm_forward_ops(ctx, rng, add)
     model = common.run_model(ops)
     model = [p(m) if (p is not None and '|' in m) else m for p, m in zip(posts, model)]
     # a crash of the implementation on an input the model accepts, for which a stable finding key is registered, goes through the
